@@ -8,6 +8,7 @@ mod prng;
 mod c11;
 mod tlv;
 mod tlv_parse;
+mod lv;
 
 use emit::Report;
 
@@ -71,6 +72,8 @@ fn main() {
         "C11" => (c11::run(&ctx), 150),
         "C01" | "C03" | "C04" => (tlv::run(&ctx, &prop), 50),
         "C02" => (tlv_parse::run(&ctx), 100),
+        "C09" => (lv::run_c09(&ctx), 100),
+        "C10" => (lv::run_c10(&ctx), 200),
         _ => {
             eprintln!("unknown property {}", prop);
             std::process::exit(2);
